@@ -14,7 +14,7 @@ typed_stable typed_prefix_eoi typed_prefix_eoi' typed_prefix_eoi_any
 typed_sound typed_rejects typed_ok_iff typed_mismatch_err typed_prefix_eoi_reframed
 typed_bare_tag typed_sound_partial typed_sound_statement_needs_exclusion interp_of_encode""".split()] + \
            ["Minicbor.C05.int_accessor_exact"] + \
-           ["Minicbor.IterThm." + n for n in "drain_definite drain_indefinite arrayIter_is_next_loop mapIter_is_next_loop definite_fused indefinite_not_fused all_is_drain allx_definite_length".split()]
+           ["Minicbor.IterThm." + n for n in "drain_definite drain_indefinite arrayIter_is_next_loop mapIter_is_next_loop definite_fused indefinite_not_fused all_is_drain allx_definite_length iterNext_suffix iterNext_suffix_builtin".split()]
 PACKAGES = ["hcore"]
 RULE = ("dec <accessor> <encW(tree) ++ suffix>: wire trees = all scalar shapes at every head width and boundary argument, containers of 0..3 "
         "children over {definite at every width, indefinite} x {array, map}, tags, chunked strings, plus seeded random trees to depth 6; "
